@@ -10,6 +10,9 @@ CHECKS = {
  "C09": ("proof", "interprocedural effect analysis + path-sensitive guard dominance (go/ssa)", "DESIGN.md §3 R-RO/R-MASK/R-FLAGS, §4 C09",
    "Every store/append/map-update/lock call rooted at the receiver and reachable from any exported Stack/Condition method (enumerated from go/types each run) is proved to be dominated by the false edge of the read-only test, with exactly the exemptions of the statement; the bit helpers are proved to touch one bit only; Free is proved to return a non-nil error when the flag is set. The whole property is an effect statement, so a sound effect analysis is a proof of it for all inputs and histories.",
    "Trusted: go/types+go/ssa lowering, the root tracing of checker/effects.go (unknown roots fail), absence of unsafe/reflect.Set (re-checked), sequential execution. Not covered: user closures / String() / Operator code, mutation of a nested read-only object through a writable parent, contents of the user-owned Auxiliary map."),
+ "C11": ("proof", "interprocedural effect (write-set) analysis + return-provenance (freshness) analysis (go/ssa)", "DESIGN.md §3 R-PURE/R-FRESH/R-NONDET, §4 C11",
+   "For every exported query method (names of the statement, all Is*/Can* methods, plain getters; enumerated from go/types each run) the transitive write set over all in-package callees is proved empty on every non-fresh object, returned slices/maps are proved to be allocated during the call, and no nondeterministic source is reachable. With no write to shared memory, repeated and concurrent queries cannot interfere or race; this is a proof of the property for all inputs and schedules of queries.",
+   "Trusted: go/ssa lowering, root tracing, a purity table for the standard-library functions used. Not covered: user closures/String() methods called by queries (listed as USER edges), stdlib-internal synchronisation, query-vs-mutator races (C10)."),
 }
 
 NA = {
